@@ -199,3 +199,197 @@ Proof.
   apply dtables_okb_R. pose proof tables_okb_current_lemma as H. unfold tables_okb in H.
   unfold d_tables. revert H. destruct (dy_tables drift_tables); intros H; [exact H|discriminate H].
 Qed.
+
+(* ---------- the tabulated steps of the current tables ---------- *)
+Lemma steps_from_In i j0 t j a b :
+  nth_error t j = Some a -> nth_error t (S j) = Some b ->
+  In ((i, (j0 + N.of_nat j)%N), dy_sub (dk_radius a) (dk_radius b)) (steps_from i j0 t).
+Proof.
+  revert j j0. induction t as [|x t IH]; intros j j0 Ha Hb; [destruct j; discriminate|].
+  destruct t as [|y t']; [destruct j as [|[|j]]; discriminate|].
+  change (steps_from i j0 (x :: y :: t'))
+    with (((i, j0), dy_sub (dk_radius x) (dk_radius y)) :: steps_from i (j0 + 1) (y :: t')).
+  destruct j as [|j].
+  - cbn in Ha, Hb. inv Ha. inv Hb. left. rewrite N.add_0_r. reflexivity.
+  - right. replace (j0 + N.of_nat (S j))%N with (j0 + 1 + N.of_nat j)%N by lia.
+    apply IH; [exact Ha|exact Hb].
+Qed.
+
+Lemma all_steps_from_In i0 (ts : dtables) i s x :
+  nth_error ts i = Some s -> In x (steps_from (i0 + N.of_nat i) 0 (fst s)) -> In x (all_steps_from i0 ts).
+Proof.
+  revert i i0. induction ts as [|s0 ts IH]; intros i i0 Hs Hx; [destruct i; discriminate|].
+  cbn [all_steps_from]. apply in_or_app. destruct i as [|i].
+  - cbn in Hs. inv Hs. left. rewrite N.add_0_r in Hx. exact Hx.
+  - right. apply (IH i (i0 + 1)%N); [exact Hs|].
+    replace (i0 + 1 + N.of_nat i)%N with (i0 + N.of_nat (S i))%N by lia. exact Hx.
+Qed.
+
+Lemma seg_mem_In s l : seg_mem s l = true -> In s l.
+Proof.
+  unfold seg_mem. intros H. apply existsb_exists in H. destruct H as (x & Hx & E).
+  unfold seg_eqb in E. apply andb_true_iff in E. destruct E as [E1 E2].
+  apply N.eqb_eq in E1. apply N.eqb_eq in E2. destruct s, x. cbn [fst snd] in *. subst. exact Hx.
+Qed.
+
+(* every tabulated step outside the known class is < 0.5 mm *)
+Lemma steps_current_lemma i j sd a b :
+  nth_error d_tables i = Some sd -> nth_error (fst sd) j = Some a -> nth_error (fst sd) (S j) = Some b ->
+  ~ In (N.of_nat i, N.of_nat j) known_steps ->
+  dyR (dk_radius a) - dyR (dk_radius b) < 5 / 10000.
+Proof.
+  intros Hs Ha Hb Hk. pose proof steps_okb_current as H. unfold steps_okb in H. rewrite forallb_forall in H.
+  specialize (H ((N.of_nat i, N.of_nat j), dy_sub (dk_radius a) (dk_radius b))).
+  cbn [fst snd] in H. rewrite <- dy_sub_R.
+  assert (In ((N.of_nat i, N.of_nat j), dy_sub (dk_radius a) (dk_radius b)) (all_steps d_tables)) as Hin.
+  { unfold all_steps. apply (all_steps_from_In 0 d_tables i sd); [exact Hs|].
+    rewrite N.add_0_l. pose proof (steps_from_In (N.of_nat i) 0 (fst sd) j a b Ha Hb) as X.
+    rewrite N.add_0_l in X. exact X. }
+  specialize (H Hin). apply orb_true_iff in H. destruct H as [H|H].
+  - apply dy_lt_q_R in H. exact H.
+  - exfalso. apply Hk, seg_mem_In, H.
+Qed.
+
+(* ---------- lemmas pinned in Props/C18.v (the abstract section instantiated with Flocq's rounding) ---------- *)
+Lemma lookup_ok_iff_lemma m ts z t :
+  tables_ok fmt64 ts ->
+  ((exists r c, lookupR m ts z t = Ok (r, c)) <->
+   Rabs z <= zmax ts /\ exists s, is_slice ts z s /\ t_first s <= t <= t_last s).
+Proof. intros H. unfold lookupR. apply (lookup_ok_iff_gen rnd64 fmt64); try laws; exact H. Qed.
+
+Lemma lookup_err_z_iff_lemma m ts z t :
+  tables_ok fmt64 ts -> (lookupR m ts z t = Err ERR_Z <-> zmax ts < Rabs z).
+Proof. intros H. unfold lookupR. apply (lookup_err_z_iff_gen rnd64 fmt64); try laws; exact H. Qed.
+
+Lemma lookup_err_time_iff_lemma m ts z t :
+  tables_ok fmt64 ts ->
+  (lookupR m ts z t = Err ERR_TIME <-> exists s, is_slice ts z s /\ (t < t_first s \/ t_last s < t)).
+Proof. intros H. unfold lookupR. apply (lookup_err_time_iff_gen rnd64 fmt64); try laws; exact H. Qed.
+
+Lemma lookup_total_lemma m ts z t : tables_ok fmt64 ts -> lookupR m ts z t <> Panic.
+Proof. intros H. unfold lookupR. apply (lookup_total_gen rnd64 fmt64); try laws; exact H. Qed.
+
+Lemma lookup_no_wrap_lemma ts z t :
+  tables_ok fmt64 ts -> lookupR Wrapping ts z t = lookupR Checked ts z t.
+Proof. intros H. unfold lookupR. apply (lookup_no_wrap_gen rnd64 fmt64); try laws; exact H. Qed.
+
+Lemma no_underflow_index_lemma m tb t :
+  table_ok fmt64 tb ->
+  rk_time (nth 0 tb rk0) <= t <= rk_time (nth (length tb - 1) tb rk0) ->
+  exists i, rhs_index_of (real_arith rnd64) m tb t = Ok i /\ (1 <= i)%N /\ (i < lenN tb)%N.
+Proof. intros H1 H2. apply (no_underflow_index_gen rnd64 fmt64); try laws; assumption. Qed.
+
+Lemma radius_in_range_lemma m ts z t r c s lo hi :
+  tables_ok fmt64 ts -> is_slice ts z s -> lookupR m ts z t = Ok (r, c) ->
+  (forall k, In k (fst s) -> lo <= rk_radius k) -> (forall k, In k (fst s) -> rk_radius k <= hi) ->
+  lo <= r <= hi.
+Proof. intros. unfold lookupR in *. eapply (radius_in_range_gen rnd64 fmt64) with (m := m) (z := z) (t := t) (c := c) (s := s); try laws; eassumption. Qed.
+
+Lemma lorentz_in_range_lemma m ts z t r c s hi :
+  tables_ok fmt64 ts -> is_slice ts z s -> lookupR m ts z t = Ok (r, c) ->
+  (forall k, In k (fst s) -> rk_corr k <= hi) -> 0 <= c <= hi.
+Proof. intros. unfold lookupR in *. eapply (lorentz_in_range_gen rnd64 fmt64) with (m := m) (z := z) (t := t) (r := r) (s := s); try laws; eassumption. Qed.
+
+Lemma radius_monotone_lemma m ts z t1 t2 r1 c1 r2 c2 :
+  tables_ok fmt64 ts -> t1 <= t2 ->
+  lookupR m ts z t1 = Ok (r1, c1) -> lookupR m ts z t2 = Ok (r2, c2) -> r2 <= r1.
+Proof. intros. unfold lookupR in *. eapply (radius_monotone_gen rnd64 fmt64) with (m := m) (z := z) (t1 := t1) (t2 := t2) (c1 := c1) (c2 := c2); try laws; eassumption. Qed.
+
+Lemma radius_at_knots_lemma m ts z s k :
+  tables_ok fmt64 ts -> is_slice ts z s -> In k (fst s) ->
+  exists c, lookupR m ts z (rk_time k) = Ok (rk_radius k, c).
+Proof. intros. unfold lookupR. eapply (radius_at_knots_gen rnd64 fmt64); try laws; eassumption. Qed.
+
+Lemma z_symmetric_lemma m ts z t : lookupR m ts (- z) t = lookupR m ts z t.
+Proof. apply z_symmetric_gen. Qed.
+
+Lemma step_bound_lemma m ts z s i j t1 t2 r1 c1 r2 c2 :
+  tables_ok fmt64 ts -> is_slice ts z s -> (i <= j)%nat -> (j < length (fst s))%nat ->
+  rk_time (knot_at s i) <= t1 -> t1 <= t2 -> t2 <= rk_time (knot_at s j) ->
+  lookupR m ts z t1 = Ok (r1, c1) -> lookupR m ts z t2 = Ok (r2, c2) ->
+  0 <= r1 - r2 <= rk_radius (knot_at s i) - rk_radius (knot_at s j).
+Proof. intros. unfold lookupR in *. eapply (step_bound_gen rnd64 fmt64) with (m := m) (z := z) (t1 := t1) (t2 := t2) (c1 := c1) (c2 := c2); try laws; eassumption. Qed.
+
+Lemma space_point_lemma m ts t phi z r p z' :
+  space_pointR m ts t phi z = Ok (r, p, z') <->
+  exists c, lookupR m ts z t = Ok (r, c) /\ p = rnd64 (phi - c) /\ z' = z.
+Proof.
+  unfold space_pointR, lookupR. rewrite space_point_eq.
+  destruct (tables_at (real_arith rnd64) m ts z t) as [[r0 c0]| |]; cbn [fst snd].
+  - split.
+    + intros E. inv E. exists c0. auto.
+    + intros (c & E & -> & ->). inv E. reflexivity.
+  - split; [discriminate|intros (c & E & _); discriminate].
+  - split; [discriminate|intros (c & E & _); discriminate].
+Qed.
+
+Lemma space_point_err_lemma m ts t phi z k :
+  space_pointR m ts t phi z = Err k <-> lookupR m ts z t = Err k.
+Proof.
+  unfold space_pointR, lookupR. rewrite space_point_eq.
+  destruct (tables_at (real_arith rnd64) m ts z t) as [[r0 c0]| |]; split; intros E; try discriminate; inv E; reflexivity.
+Qed.
+
+(* ---------- the 0.5 mm / 8 ns claim on the current tables ---------- *)
+Lemma nth_map_error {X Y} (f : X -> Y) l j a d : nth_error l j = Some a -> nth j (map f l) d = f a.
+Proof.
+  intros H. apply nth_error_nth. rewrite nth_error_map, H. reflexivity.
+Qed.
+
+(* lookups inside one tabulated segment that is not in the known class differ by less than 0.5 mm *)
+Lemma half_mm_outside_known_lemma m i j sd a b z t1 t2 r1 c1 r2 c2 :
+  nth_error d_tables i = Some sd -> nth_error (fst sd) j = Some a -> nth_error (fst sd) (S j) = Some b ->
+  ~ In (N.of_nat i, N.of_nat j) known_steps ->
+  is_slice r_tables z (map dknotR (fst sd), dyR (snd sd)) ->
+  dyR (dk_time a) <= t1 -> t1 <= t2 -> t2 <= dyR (dk_time b) ->
+  lookupR m r_tables z t1 = Ok (r1, c1) -> lookupR m r_tables z t2 = Ok (r2, c2) ->
+  0 <= r1 - r2 < 5 / 10000.
+Proof.
+  intros Hs Ha Hb Hk Hsl H1 H12 H2 E1 E2.
+  pose proof (steps_current_lemma i j sd a b Hs Ha Hb Hk) as Hstep.
+  set (s := (map dknotR (fst sd), dyR (snd sd))) in *.
+  assert (knot_at s j = dknotR a) as Ka by (apply nth_map_error, Ha).
+  assert (knot_at s (S j) = dknotR b) as Kb by (apply nth_map_error, Hb).
+  assert (S j < length (fst s))%nat as Hlen.
+  { cbn [fst s]. rewrite map_length. apply nth_error_Some. congruence. }
+  pose proof (step_bound_lemma m r_tables z s j (S j) t1 t2 r1 c1 r2 c2 table_ok_current_lemma Hsl) as X.
+  rewrite Ka, Kb in X. rewrite !dknotR_time, !dknotR_radius in X.
+  specialize (X ltac:(lia) Hlen H1 H12 H2 E1 E2). lra.
+Qed.
+
+(* F8: two lookups 8 ns apart whose radii differ by at least 0.5 mm *)
+Lemma half_mm_refuted_gen d :
+  witness_okb d = true -> tables_ok fmt64 (dtablesR d) ->
+  exists z t1 t2 r1 c1 r2 c2,
+    lookupR Checked (dtablesR d) z t1 = Ok (r1, c1) /\ lookupR Checked (dtablesR d) z t2 = Ok (r2, c2) /\
+    Rabs (t2 - t1 - 8 / 1000000000) <= 1 / 100000000000000000000 /\
+    5 / 10000 <= r1 - r2.
+Proof.
+  unfold witness_okb. intros H Hok.
+  destruct (nth_error d 0) as [s|] eqn:E0; [|discriminate].
+  destruct (nth_error (fst s) 17) as [a|] eqn:Ea; [|discriminate].
+  destruct (nth_error (fst s) 18) as [b|] eqn:Eb; [|discriminate].
+  rewrite !andb_true_iff in H. destruct H as (((H1 & H2) & H3) & H4).
+  destruct d as [|s' d']; [discriminate|]. cbn in E0. inv E0.
+  set (sR := (map dknotR (fst s), dyR (snd s))).
+  assert (is_slice (dtablesR (s :: d')) 0 sR) as Hsl.
+  { exists [], (dtablesR d'). split; [reflexivity|]. split; [|constructor].
+    rewrite Rabs_R0. apply dy_leb_R in H1. rewrite dyR_eq in H1. cbn [IZR] in H1. cbn [snd sR]. lra. }
+  assert (In (dknotR a) (fst sR)) as Ia by (apply in_map, (nth_error_In _ _ Ea)).
+  assert (In (dknotR b) (fst sR)) as Ib by (apply in_map, (nth_error_In _ _ Eb)).
+  destruct (radius_at_knots_lemma Checked _ 0 sR _ Hok Hsl Ia) as (ca & La).
+  destruct (radius_at_knots_lemma Checked _ 0 sR _ Hok Hsl Ib) as (cb & Lb).
+  exists 0, (rk_time (dknotR a)), (rk_time (dknotR b)), (rk_radius (dknotR a)), ca, (rk_radius (dknotR b)), cb.
+  split; [exact La|]. split; [exact Lb|].
+  rewrite !dknotR_time, !dknotR_radius, <- !dy_sub_R.
+  apply negb_true_iff in H2. apply dy_lt_q_false in H2.
+  apply dy_le_q_R in H3. apply negb_true_iff in H4. apply dy_lt_q_false in H4.
+  split; [|exact H2]. apply Rabs_le. lra.
+Qed.
+
+Lemma lipschitz_half_mm_refuted_lemma :
+  exists z t1 t2 r1 c1 r2 c2,
+    lookupR Checked r_tables z t1 = Ok (r1, c1) /\ lookupR Checked r_tables z t2 = Ok (r2, c2) /\
+    Rabs (t2 - t1 - 8 / 1000000000) <= 1 / 100000000000000000000 /\
+    5 / 10000 <= r1 - r2.
+Proof. exact (half_mm_refuted_gen d_tables witness_okb_current table_ok_current_lemma). Qed.
